@@ -189,6 +189,8 @@ pub(crate) enum InnerError {
     },
     /// Could not guess source transfer syntax
     GuessTransferSyntax { backtrace: Backtrace },
+    /// The data source is no longer available after a failure to create the data set parser
+    ReaderUnavailable { backtrace: Backtrace },
     #[snafu(display("Unexpected token {token:?}"))]
     UnexpectedToken {
         token: dicom_parser::dataset::LazyDataTokenRepr,
@@ -448,14 +450,18 @@ where
                 odd_length,
                 charset_override,
             } => {
-                let src = src.take().unwrap();
-
                 // look up transfer syntax
+                // (before taking the reader,
+                // so that it is not lost if the transfer syntax is unknown)
                 let ts = ts_index
                     .get(ts_uid)
                     .context(UnrecognizedTransferSyntaxSnafu {
                         ts_uid: ts_uid.to_string(),
                     })?;
+
+                // the reader is gone if a previous attempt
+                // to create the parser has failed
+                let src = src.take().context(ReaderUnavailableSnafu)?;
 
                 let mut options = LazyDataSetReaderOptions::default();
                 options.odd_length = *odd_length;
